@@ -1,11 +1,25 @@
 // C04 - a validator key never signs conflicting votes or proposals, even across restarts.
 //
-// Engine E3 ("crashx"): every history of <= D signing requests is run on the REAL types.FilePV whose key file
-// lives on the logging in-memory file system verif/vfs (reached through the identifier-level redirect of
-// cmn.WriteFileAtomic and types.LoadFilePV, see tools/gen_c04_vfs.py). Then EVERY crash state of the
-// file-system log (every operation boundary inside and between calls, torn writes, and - power-loss model -
-// every loss of unsynced data) is materialised, the real LoadFilePV is run on the surviving bytes and the
-// remaining requests are issued to the reloaded signer. The oracle looks only at what was released.
+// Engine E3 ("crashx"): every history of <= D signing requests (SignVote / SignProposal /
+// SignVoteWithoutSave x height x round x step x block x timestamp) is run on the REAL types.FilePV whose key
+// file lives on the logging in-memory file system verif/vfs. The signer's own file I/O reaches the shim
+// through the identifier-level redirect of cmn.WriteFileAtomic and types.LoadFilePV (tools/gen_c04_vfs.py,
+// dispatch in hooks/libs/common/vfs_hook.go; every other line is the file on disk).
+//
+// Then EVERY crash state of the file-system log is materialised - every operation boundary inside a call
+// (open, write, torn write, close, rename, remove) and between calls, and, in the power-loss model, every
+// loss of unsynced file data -, the real LoadFilePV is run on the surviving bytes and the remaining requests
+// are issued to the reloaded signer.
+//
+// Oracle (judge), over everything RELEASED in both process lifetimes - a release is a signature stored in
+// the caller's Vote/Proposal, observed at every file-system operation boundary and at return:
+//   - per (height, round, step) at most one distinct signed payload (a repeat must come back with identical
+//     sign-bytes - i.e. the original timestamp - and the identical signature, or be refused);
+//   - nothing signed for a height/round/step below one already released;
+//   - a released signature verifies over the payload handed back with it;
+//   - LoadFilePV never fails on the bytes a crash leaves behind.
+//
+// Replay: ./check C04 --replay <file> re-runs the recorded history with all its crash scenarios.
 package main
 
 import (
@@ -134,6 +148,21 @@ type finding struct {
 	key, what string
 }
 
+// keyF11: the one class that is attributed to the API of the EARLIER release (see judge).
+const keyF11 = "SignVoteWithoutSave:hrs-not-recorded"
+
+// record is the last-signed record a signer holds right after LoadFilePV.
+type record struct {
+	hrs   [3]int64
+	bytes string
+}
+
+// covers: the record is at or beyond the release (same HRS: it holds exactly those sign-bytes).
+func (rec *record) covers(e release) bool {
+	c := cmpHRS(rec.hrs, e.hrs)
+	return c > 0 || c == 0 && rec.bytes == e.bytes
+}
+
 // judge compares a new release with an earlier one. This is the whole safety oracle:
 //   - per (height, round, step) at most one distinct signed payload: same HRS => identical sign-bytes and
 //     identical signature (a repeat may come back with the ORIGINAL timestamp, which makes the bytes identical);
@@ -141,7 +170,7 @@ type finding struct {
 //
 // The key names the root-cause class: the broken rule for in-process defects, the way the earlier release
 // got lost for restart defects.
-func judge(e, n release, powerLoss bool) *finding {
+func judge(e, n release, powerLoss bool, loaded *record) *finding {
 	var rule, what string
 	switch c := cmpHRS(n.hrs, e.hrs); {
 	case c == 0 && n.payload != e.payload:
@@ -158,10 +187,13 @@ func judge(e, n release, powerLoss bool) *finding {
 	switch {
 	case e.api == apiSignVoteWithoutSave:
 		// root cause independent of rule and of crashes: the call never records what it signed
-		return &finding{"SignVoteWithoutSave:hrs-not-recorded", "FilePV.SignVoteWithoutSave releases a signature without recording the height/round/step (neither in memory nor on disk): " + what}
+		return &finding{keyF11, "FilePV.SignVoteWithoutSave releases a signature without recording the height/round/step (neither in memory nor on disk): " + what}
 	case e.life == n.life:
 		// a defect of the in-process checks: the broken rule is the root-cause class
-		return &finding{rule + ":same-lifetime", what + " within one process lifetime"}
+		return &finding{rule, what + " (within one process lifetime)"}
+	case loaded != nil && loaded.covers(e):
+		// the restarted signer HAD the record of the earlier release and signed anyway: same class
+		return &finding{rule, what + " (the earlier release was made before a restart; the reloaded record covers it)"}
 	}
 	// the earlier release was forgotten by the restart: the durability defect is the root-cause class,
 	// whichever rule it then breaks
@@ -182,7 +214,8 @@ func judge(e, n release, powerLoss bool) *finding {
 // running requests on the real signer
 
 type outcome struct {
-	class    string // signed | same-signature | refused:<reason> | panic:<reason>
+	api      api
+	class    string // signed | signed:original-timestamp-handed-back | refused:<reason> | panic:<reason>
 	released *release
 }
 
@@ -223,19 +256,25 @@ type worker struct {
 	verified map[string]bool
 
 	// statistics (merged at the end)
-	outcomes     map[string]int
-	states       map[[4]uint64]struct{}
-	nReq         int
-	nLoad        int
-	nScen        int
-	nPL          int
-	nHist        int
-	nReleases    int
-	nMemo        int
-	nMemoChecked int
-	panics       map[string]int
-	sbCache      map[sbKey][2]string
+	outcomes  map[string]int
+	states    map[[4]uint64]struct{}
+	nScen     int
+	nPL       int
+	nHist     int
+	nReleases int
+	nMemo     int
+	nPruned   int
+	nFallback int
+	// distinct executions (independent of worker timing): first lifetimes, plus second lifetimes that are not
+	// shared between histories; the shared ones are counted from the shared table at the end of a phase
+	lLoads, lReqs int
+	nLocalChecked int // memoised runs (within a history) re-executed and compared
+	// what this worker really executed (depends on which worker got to a shared run first)
+	rawReq, rawLoad, rawSharedChecked int
+	sbCache                           map[sbKey][2]string
 }
+
+func (w *worker) count(o outcome) { w.outcomes[apiNames[o.api]+":"+o.class]++ }
 
 // sbKey holds every field that enters the sign-bytes of a vote / proposal (the cache below only saves
 // re-marshalling identical objects; it is keyed by what the signer handed back, not by the request).
@@ -349,8 +388,8 @@ func (w *worker) exec(pv *types.FilePV, q request, idx, life int) outcome {
 		w.curProp = p
 		panicked, pval = vk.Catch(func() { err = pv.SignProposal(chainID, p) })
 	}
-	w.nReq++
-	var out outcome
+	w.rawReq++
+	out := outcome{api: q.api}
 	switch {
 	case panicked:
 		msg := canon(fmt.Sprint(pval))
@@ -361,7 +400,6 @@ func (w *worker) exec(pv *types.FilePV, q request, idx, life int) outcome {
 			msg = msg[:80]
 		}
 		out.class = "panic:" + msg
-		w.panics[q.String()+": "+msg]++
 	case err != nil:
 		out.class = classify(err.Error())
 	case !w.sigVisible():
@@ -386,14 +424,13 @@ func (w *worker) exec(pv *types.FilePV, q request, idx, life int) outcome {
 	if w.early != nil {
 		w.early.api = q.api
 	}
-	w.outcomes[apiNames[q.api]+":"+out.class]++
 	return out
 }
 
 // load runs the real LoadFilePV; a failure (cmn.Exit inside LoadFilePV, turned into a panic by the redirect)
 // is reported as a string.
 func (w *worker) load() (pv *types.FilePV, fail string) {
-	w.nLoad++
+	w.rawLoad++
 	w.curIdx, w.curVote, w.curProp, w.early = -1, nil, nil, nil
 	if p, v := vk.Catch(func() { pv = types.LoadFilePV(w.path) }); p {
 		if e, ok := v.(cmn.VerifExitPanic); ok {
@@ -427,6 +464,7 @@ type histResult struct {
 // lifeRun is what the second process lifetime did: reload, then the remaining requests.
 type lifeRun struct {
 	fail    string
+	loaded  record // the record right after the reload
 	outs    []outcome
 	foreign bool
 }
@@ -437,7 +475,7 @@ type memoKey struct {
 }
 
 func sameRun(a, b *lifeRun) bool {
-	if a.fail != b.fail || len(a.outs) != len(b.outs) {
+	if a.fail != b.fail || len(a.outs) != len(b.outs) || a.loaded != b.loaded {
 		return false
 	}
 	for i := range a.outs {
@@ -456,12 +494,12 @@ func sameRun(a, b *lifeRun) bool {
 // reloaded signer. What the second lifetime does is a function of the bytes it reads and of the requests; it
 // reads only the key file (checked on every execution: any look at another pre-existing path sets foreign
 // and the caller repeats the history without memoisation), so within one history the run is memoised by
-// (key file content, resume) - e.g. all crash points before the rename share one execution. Every 64th
-// hit is executed anyway and compared. Runs whose surviving bytes are the initial key file, or that have at
+// (key file content, resume) - e.g. all crash points before the rename share one execution. One hit in 64
+// (chosen by history and scenario index) is executed anyway and compared. Runs whose surviving bytes are the initial key file, or that have at
 // most one remaining request, are also shared BETWEEN histories (cfg.gmemo), and the run "reload the initial
 // file, then the whole history" is the first lifetime itself. Releases in a memoised run carry indices
 // relative to resume.
-func (w *worker) recoverAndResume(cfg *config, st *vfs.FS, hist []int, resume int, memo map[memoKey]*lifeRun) *lifeRun {
+func (w *worker) recoverAndResume(cfg *config, st *vfs.FS, hist []int, resume int, memo map[memoKey]*lifeRun, sel, fallback bool) *lifeRun {
 	var key memoKey
 	var gkey string
 	if memo != nil {
@@ -471,6 +509,7 @@ func (w *worker) recoverAndResume(cfg *config, st *vfs.FS, hist []int, resume in
 			key.content = "\x00absent"
 		}
 		run, hit := memo[key]
+		local := hit
 		if !hit && cfg.gmemo != nil && (key.content == cfg.c0 || len(hist)-resume <= 1) {
 			// shared between histories: same surviving bytes, same remaining requests
 			gkey = fmt.Sprint(hist[resume:]) + key.content
@@ -480,15 +519,21 @@ func (w *worker) recoverAndResume(cfg *config, st *vfs.FS, hist []int, resume in
 			}
 		}
 		if hit {
-			w.nMemo++
-			if w.nMemo%64 != 0 {
+			if local {
+				w.nMemo++
+			}
+			if !sel {
 				return run
 			}
-			again := w.recoverAndResume(cfg, st, hist, resume, nil)
+			again := w.recoverAndResume(cfg, st, hist, resume, nil, false, false)
 			if !sameRun(run, again) {
 				vk.Fatalf("memoisation self-check failed: two crash states with the same key file content and the same remaining requests behaved differently (history %v, resume %d): %+v vs %+v", hist, resume, *run, *again)
 			}
-			w.nMemoChecked++
+			if local {
+				w.nLocalChecked++
+			} else {
+				w.rawSharedChecked++
+			}
 			return run
 		}
 	}
@@ -500,6 +545,7 @@ func (w *worker) recoverAndResume(cfg *config, st *vfs.FS, hist []int, resume in
 		run.fail = fail
 	} else {
 		w.noteState(pv2, st)
+		run.loaded = record{[3]int64{int64(pv2.LastHeight), int64(pv2.LastRound), int64(pv2.LastStep)}, string(pv2.LastSignBytes)}
 		for j := resume; j < len(hist); j++ {
 			run.outs = append(run.outs, w.exec(pv2, w.alpha[hist[j]], j-resume, 1))
 			w.noteState(pv2, st)
@@ -521,7 +567,13 @@ func (w *worker) recoverAndResume(cfg *config, st *vfs.FS, hist []int, resume in
 		memo[key] = run
 		if gkey != "" {
 			cfg.gmemo.Store(gkey, run)
+		} else {
+			w.lLoads++
+			w.lReqs += len(run.outs)
 		}
+	} else if fallback {
+		w.lLoads++ // un-memoised mode: every scenario is an execution
+		w.lReqs += len(run.outs)
 	}
 	return run
 }
@@ -538,16 +590,17 @@ func (w *worker) verify(rel *release) bool {
 	return ok
 }
 
-func (w *worker) runHistory(cfg *config, hist []int, initFile []byte) histResult {
-	res := w.runHistory1(cfg, hist, initFile, true)
+func (w *worker) runHistory(cfg *config, hi int, hist []int, initFile []byte) histResult {
+	res := w.runHistory1(cfg, hi, hist, initFile, true)
 	if res.foreign {
 		// the memoisation argument does not hold for this history: run every scenario for real
-		res = w.runHistory1(cfg, hist, initFile, false)
+		w.nFallback++
+		res = w.runHistory1(cfg, hi, hist, initFile, false)
 	}
 	return res
 }
 
-func (w *worker) runHistory1(cfg *config, hist []int, initFile []byte, useMemo bool) histResult {
+func (w *worker) runHistory1(cfg *config, hi int, hist []int, initFile []byte, useMemo bool) histResult {
 	var res histResult
 	var memo map[memoKey]*lifeRun
 	if useMemo {
@@ -584,27 +637,45 @@ func (w *worker) runHistory1(cfg *config, hist []int, initFile []byte, useMemo b
 		vk.Fatalf("initial key file does not load: %s", fail)
 	}
 	fs.Checkpoint()
+	w.lLoads++
+	w.lReqs += len(hist)
+	rec0 := record{[3]int64{int64(pv.LastHeight), int64(pv.LastRound), int64(pv.LastStep)}, string(pv.LastSignBytes)}
 	w.nHist++
 	n := len(hist)
 	outs := make([]outcome, n)
 	early := make([]*release, n)
 	spans := make([]span, n)
+	// As in any state-space search, a state reached THROUGH a violation is not expanded: crash scenarios whose
+	// first lifetime already contains a violating request (completed or in flight), and requests after a violating one in the second
+	// lifetime, are skipped (what they show is a consequence, and would be filed under a second key).
+	// Violations of the recorded SignVoteWithoutSave class do not prune (they are attributed per pair).
+	firstViol := n
 	var rel0 []release // releases of lifetime 0 in order
 	relUpTo := make([]int, n+1)
 	for i, o := range hist {
 		spans[i].start = fs.LogLen()
 		outs[i] = w.exec(pv, w.alpha[o], i, 0)
+		w.count(outs[i])
 		spans[i].end = fs.LogLen()
 		early[i] = w.early
 		w.noteState(pv, fs)
 		if r := outs[i].released; r != nil {
 			w.nReleases++
 			if !w.verify(r) {
+				// not a signed payload at all: reported as such, and not compared with the others
 				report(finding{"released-signature-invalid", "a signature was released that does not verify over the payload handed back with it"}, "no crash, request "+fmt.Sprint(i), nil, nil, "")
+				if i < firstViol {
+					firstViol = i
+				}
+				relUpTo[i+1] = len(rel0)
+				continue
 			}
 			for _, e := range rel0 {
-				if f := judge(e, *r, false); f != nil {
+				if f := judge(e, *r, false, nil); f != nil {
 					report(*f, fmt.Sprintf("no crash: request %d after request %d", i, e.idx), nil, nil, "")
+					if f.key != keyF11 && i < firstViol {
+						firstViol = i
+					}
 				}
 			}
 			rel0 = append(rel0, *r)
@@ -617,7 +688,7 @@ func (w *worker) runHistory1(cfg *config, hist []int, initFile []byte, useMemo b
 	fslog := fs.Log()
 	if memo != nil {
 		// "crash before the first request": LoadFilePV(initial file) + the whole history is what was just run
-		memo[memoKey{string(initFile), 0}] = &lifeRun{outs: outs}
+		memo[memoKey{string(initFile), 0}] = &lifeRun{outs: outs, loaded: rec0}
 	}
 
 	// ---- crash scenarios ----
@@ -663,8 +734,12 @@ func (w *worker) runHistory1(cfg *config, hist []int, initFile []byte, useMemo b
 		if cfg.r.Expired() {
 			break
 		}
-		if w.nScen%50021 == 7 && w.id < 3 {
-			cfg.r.Sample(map[string]interface{}{"history": names, "scenario_index": si, "crash_point": sc.cp.String(), "boundary": sc.boundary, "resume_at_request": sc.resume})
+		if (sc.inside >= 0 && firstViol <= sc.inside) || (sc.inside < 0 && firstViol < sc.resume) {
+			w.nPruned++
+			continue
+		}
+		if hi%cfg.sampleEvery == 11 && si == (hi/cfg.sampleEvery)%len(scens) {
+			cfg.addSample(hi, map[string]interface{}{"history": names, "scenario_index": si, "scenarios_of_this_history": len(scens), "crash_point": sc.cp.String(), "boundary": sc.boundary, "resume_at_request": sc.resume})
 		}
 		w.nScen++
 		if sc.cp.PowerLoss() {
@@ -692,12 +767,12 @@ func (w *worker) runHistory1(cfg *config, hist []int, initFile []byte, useMemo b
 			rels = append(rels, rel0[:relUpTo[sc.resume]]...)
 		}
 		st := fs.Materialize(sc.cp)
-		run := w.recoverAndResume(cfg, st, hist, sc.resume, memo)
+		run := w.recoverAndResume(cfg, st, hist, sc.resume, memo, useMemo && (hi*31+si)%64 == 0, !useMemo)
 		if run.foreign {
 			res.foreign = true
 		}
 		if run.fail != "" {
-			k := "reload-fails:process-crash"
+			k := "reload-fails"
 			if sc.cp.PowerLoss() {
 				k = "reload-fails:power-loss"
 			}
@@ -705,6 +780,7 @@ func (w *worker) runHistory1(cfg *config, hist []int, initFile []byte, useMemo b
 			continue
 		}
 		for k, o := range run.outs {
+			w.count(o)
 			if o.released == nil {
 				continue
 			}
@@ -714,15 +790,37 @@ func (w *worker) runHistory1(cfg *config, hist []int, initFile []byte, useMemo b
 			w.nReleases++
 			if !w.verify(r) {
 				report(finding{"released-signature-invalid", "a signature was released that does not verify over the payload handed back with it"}, desc, &sc.cp, fslog, "")
+				break
 			}
+			stop := false
 			for _, e := range rels {
-				if f := judge(e, *r, sc.cp.PowerLoss()); f != nil {
+				if f := judge(e, *r, sc.cp.PowerLoss(), &run.loaded); f != nil {
 					report(*f, desc, &sc.cp, fslog, fmt.Sprintf("request %d (released before the crash: %v) vs request %d (after the reload)", e.idx, e.life == 0, r.idx))
+					if f.key != keyF11 {
+						stop = true
+					}
 				}
+			}
+			if stop {
+				break
 			}
 			rels = append(rels, *r)
 		}
 	}
+	// a defect that already shows under the process-crash model is not filed a second time under the
+	// power-loss model (a superset of crash states) for the same history
+	plain := map[string]bool{}
+	for _, v := range res.viol {
+		plain[v.key] = true
+	}
+	kept := res.viol[:0]
+	for _, v := range res.viol {
+		if strings.HasSuffix(v.key, ":power-loss") && plain[strings.TrimSuffix(v.key, ":power-loss")] {
+			continue
+		}
+		kept = append(kept, v)
+	}
+	res.viol = kept
 	return res
 }
 
@@ -734,6 +832,16 @@ type config struct {
 	powerLoss bool
 	gmemo     *sync.Map // nil: no sharing between histories
 	c0        string    // the initial key file
+
+	sampleEvery int
+	smu         sync.Mutex
+	samples     map[int]interface{}
+}
+
+func (c *config) addSample(hi int, v interface{}) {
+	c.smu.Lock()
+	c.samples[hi] = v
+	c.smu.Unlock()
 }
 
 type phase struct {
@@ -745,7 +853,7 @@ type phase struct {
 func main() {
 	log.Root().SetHandler(log.DiscardHandler())
 	r := vk.Start("C04", "model_checking")
-	cfg := &config{r: r, crashes: true, powerLoss: true}
+	cfg := &config{r: r, crashes: true, powerLoss: true, sampleEvery: 1 << 30, samples: map[int]interface{}{}}
 
 	priv := crypto.GenPrivKeyEd25519FromSecret([]byte("v0"))
 	pub := priv.PubKey()
@@ -807,7 +915,7 @@ func main() {
 		d.idx, d.bytes, d.sig = 1, "x@t2", "s3"
 		e := a
 		e.idx = 1
-		if judge(a, b, false) == nil || judge(a, c, false) == nil || judge(a, d, false) == nil || judge(a, e, false) != nil {
+		if judge(a, b, false, nil) == nil || judge(a, c, false, nil) == nil || judge(a, d, false, nil) == nil || judge(a, e, false, nil) != nil {
 			vk.Fatalf("oracle self-test failed")
 		}
 	}
@@ -846,7 +954,7 @@ func main() {
 			hist = append(hist, found)
 		}
 		w := newWorker(0, full, pub)
-		res := w.runHistory(cfg, hist, initFile)
+		res := w.runHistory(cfg, 0, hist, initFile)
 		for _, v := range res.viol {
 			fmt.Printf("replay: %s :: %s\n", v.key, v.what)
 			r.Violation(v.key, v.what, v.replay)
@@ -884,6 +992,7 @@ func main() {
 				pool <- w
 			}
 			cfg.gmemo, cfg.c0 = &sync.Map{}, string(initFile)
+			cfg.sampleEvery = nh/5 + 13
 			start := time.Now()
 			var done int64
 			var dmu sync.Mutex
@@ -898,7 +1007,7 @@ func main() {
 					hist[i] = x % len(ph.alpha)
 					x /= len(ph.alpha)
 				}
-				res := w.runHistory(cfg, hist, initFile)
+				res := w.runHistory(cfg, hi, hist, initFile)
 				pool <- w
 				dmu.Lock()
 				done++
@@ -926,12 +1035,20 @@ func main() {
 				ph1.merge(w)
 				vfs.Unmount(w.mount)
 			}
+			shared := 0
+			cfg.gmemo.Range(func(_, v interface{}) bool {
+				shared++
+				ph1.lLoads++
+				ph1.lReqs += len(v.(*lifeRun).outs)
+				return true
+			})
 			total.merge(ph1)
 			complete := int(done) == nh
 			per = append(per, map[string]interface{}{"phase": ph.name, "depth": depth, "alphabet": len(ph.alpha), "histories": int(done),
-				"histories_total": nh, "crash_scenarios": ph1.nScen, "power_loss_scenarios": ph1.nPL, "requests_executed": ph1.nReq,
-				"reloads": ph1.nLoad, "releases": ph1.nReleases, "wall_s": float64(int(time.Since(start).Seconds()*10)) / 10})
-			fmt.Printf("C04 %s depth %d: %d/%d histories, %d crash scenarios, %d requests, %.1fs\n", ph.name, depth, done, nh, ph1.nScen, ph1.nReq, time.Since(start).Seconds())
+				"histories_total": nh, "crash_scenarios": ph1.nScen, "power_loss_scenarios": ph1.nPL, "process_lifetimes_executed": ph1.lLoads,
+				"requests_executed": ph1.lReqs, "second_lifetimes_shared_between_histories": shared, "releases_checked": ph1.nReleases,
+				"wall_s": float64(int(time.Since(start).Seconds()*10)) / 10})
+			fmt.Printf("C04 %s depth %d: %d/%d histories, %d crash scenarios, %d lifetimes and %d requests executed, %.1fs\n", ph.name, depth, done, nh, ph1.nScen, ph1.lLoads, ph1.lReqs, time.Since(start).Seconds())
 			if !complete {
 				capped = true
 				r.Capped(fmt.Sprintf("%s: deadline inside depth %d (%d of %d histories done; shallower depths fully covered)", ph.name, depth, done, nh))
@@ -963,29 +1080,29 @@ func main() {
 	r.Set("histories", total.nHist)
 	r.Set("crash_scenarios", total.nScen)
 	r.Set("power_loss_scenarios", total.nPL)
-	r.Set("requests_executed", total.nReq)
-	r.Set("reloads", total.nLoad)
-	r.Set("recoveries_memoised", total.nMemo)
-	r.Set("memoised_recoveries_re_executed_and_compared", total.nMemoChecked)
+	r.Set("crash_scenarios_not_expanded_after_a_violation", total.nPruned)
+	r.Set("process_lifetimes_executed", total.lLoads)
+	r.Set("requests_executed", total.lReqs)
 	r.Set("releases_checked", total.nReleases)
+	r.Set("second_lifetimes_reused_within_a_history", total.nMemo)
+	r.Set("reused_second_lifetimes_re_executed_and_compared", total.nLocalChecked)
+	r.Set("histories_rerun_without_reuse", total.nFallback)
+	r.Set("raw_executed_timing_dependent", map[string]int{"requests": total.rawReq, "lifetimes": total.rawLoad, "shared_second_lifetimes_re_executed_and_compared": total.rawSharedChecked})
 	r.Set("outcomes", total.outcomes)
-	if len(total.panics) > 0 {
-		var ps []string
-		for k, n := range total.panics {
-			ps = append(ps, fmt.Sprintf("%s (x%d)", k, n))
-		}
-		sort.Strings(ps)
-		if len(ps) > 10 {
-			ps = ps[:10]
-		}
-		r.Set("panics_inside_requests", ps)
+	his := make([]int, 0, len(cfg.samples))
+	for hi := range cfg.samples {
+		his = append(his, hi)
+	}
+	sort.Ints(his)
+	for _, hi := range his {
+		r.Sample(cfg.samples[hi])
 	}
 	r.Set("states", len(total.states))
-	r.Set("transitions", total.nReq+total.nLoad)
-	r.Set("traces_validated_against_impl", total.nLoad)
+	r.Set("transitions", total.lReqs+total.lLoads)
+	r.Set("traces_validated_against_impl", total.lLoads)
 	r.Set("evaluations", total.nHist+total.nScen)
 	r.Set("distinct_nontrivial", len(total.states)+len(total.outcomes))
-	r.Set("rule", "every history of signing requests over the alphabet up to the depth x every crash state of its file-system log (each op boundary inside and between calls, torn writes, lost unsynced data) is executed on the real FilePV / LoadFilePV / WriteFileAtomic; oracle over all releases of both process lifetimes. states = distinct (in-memory last-signed record, key file content) pairs seen after any request or reload; transitions = requests + reloads executed on the real code; traces_validated_against_impl = process lifetimes executed on the real code (crash states with identical surviving key file and identical remaining requests share one execution; every 64th shared one is re-executed and compared); non-trivial = states + distinct request outcomes")
+	r.Set("rule", "every history of signing requests over the alphabet up to the depth x every crash state of its file-system log (each op boundary inside and between calls, torn writes, lost unsynced data) is executed on the real FilePV / LoadFilePV / WriteFileAtomic; oracle over all releases of both process lifetimes. states = distinct (in-memory last-signed record, key file content) pairs seen after any request or reload; transitions = requests + (re)loads executed on the real code; traces_validated_against_impl = process lifetimes executed on the real code: one first lifetime per history, and one second lifetime per distinct (surviving key file bytes, remaining requests) - crash states that agree on both share the execution (the second lifetime provably reads nothing else: checked on every execution; 1 in 64 shared ones is re-executed and compared); evaluations = histories + crash scenarios judged by the oracle; non-trivial = states + distinct request outcomes")
 	r.Assume("a signature counts as released from the moment it is stored in the caller's Vote/Proposal object (checked at every file-system operation boundary inside the call), and at the latest when the call returns without error")
 	r.Assume("process-crash model: completed file operations survive, the one in flight is absent, complete, or (a write) applied to half its bytes")
 	r.Assume("power-loss model: additionally any suffix of the data written through a handle without O_SYNC and not yet fsync'ed is lost (first lost write possibly torn at half); create/rename/remove/truncate are atomic, durable on return and ordered after synced data; directory-entry durability of rename without a directory fsync is NOT modelled")
@@ -997,7 +1114,7 @@ func main() {
 
 func newWorker(id int, alpha []request, pub crypto.PubKey) *worker {
 	w := &worker{id: id, alpha: alpha, pub: pub, addr: pub.Address(), verified: map[string]bool{},
-		outcomes: map[string]int{}, states: map[[4]uint64]struct{}{}, panics: map[string]int{}, sbCache: map[sbKey][2]string{}}
+		outcomes: map[string]int{}, states: map[[4]uint64]struct{}{}, sbCache: map[sbKey][2]string{}}
 	if id >= 0 {
 		w.mount = fmt.Sprintf("c04-w%d", id)
 		w.dir = vfs.Root + w.mount
@@ -1013,15 +1130,17 @@ func (w *worker) merge(o *worker) {
 	for k := range o.states {
 		w.states[k] = struct{}{}
 	}
-	for k, n := range o.panics {
-		w.panics[k] += n
-	}
-	w.nReq += o.nReq
-	w.nLoad += o.nLoad
 	w.nScen += o.nScen
 	w.nPL += o.nPL
 	w.nHist += o.nHist
 	w.nReleases += o.nReleases
 	w.nMemo += o.nMemo
-	w.nMemoChecked += o.nMemoChecked
+	w.nPruned += o.nPruned
+	w.nFallback += o.nFallback
+	w.lLoads += o.lLoads
+	w.lReqs += o.lReqs
+	w.nLocalChecked += o.nLocalChecked
+	w.rawReq += o.rawReq
+	w.rawLoad += o.rawLoad
+	w.rawSharedChecked += o.rawSharedChecked
 }
